@@ -194,7 +194,9 @@ pub fn echo_mut<Q: CustomQuery, C: MkCustom + Serialize>(
         .get(K_LOG)
         .and_then(|b| serde_json::from_slice(&b).ok())
         .unwrap_or_default();
-    slog.push(format!("{id}:{}", args));
+    // the funds the handler saw are part of the observable state (multitest histories)
+    let funds = info.map(|i| serde_json::to_string(&i.funds).unwrap()).unwrap_or_default();
+    slog.push(format!("{id}:{}:{funds}", args));
     deps.storage.set(K_LOG, &serde_json::to_vec(&slog).unwrap());
 
     let mut rec = CallRec {
